@@ -17,7 +17,7 @@ packet to /dev/full. Every call marked must-fail has to return an error object (
 (process, e2e) the real binary with stdin = garbage / empty / short / a directory for pcap_stream(stdin), read(stdin), read_line(stdin), and stdout = /dev/full for write(stdout, ..) + flush(stdout) and pcap_stream(stdout) + pcap_write. \
 Non-trivial: every case (each contains at least one must-fail call); distinct by script text.",
     assumptions: &[
-        "EACCES needs dropping privileges (the checks run as root, which bypasses permission bits): not exercised",
+        "EACCES is exercised by running the real binary as uid/gid 65534 against a mode-000 file and a directory owned by root (the checks themselves run as root, which bypasses permission bits); if the sandbox forbids dropping privileges those runs fail to spawn and are reported as inconclusive",
         "a small write into a buffered writer on a full device may report success; the failure must then surface at flush",
         "print / println to a failing stdout are not in the property's list and are not exercised",
     ],
@@ -59,6 +59,16 @@ fn prepare() -> Targets {
     let _ = std::fs::write(&t.garbage_pcap, fill(99, 64));
     let _ = std::fs::write(&t.short_pcap, &f.bytes()[..10]);
     let _ = std::fs::write(&t.empty, b"");
+    // for the unprivileged runs (EACCES): a file nobody may open, a directory nobody else may write to
+    {
+        use std::os::unix::fs::PermissionsExt;
+        let noperm = format!("{}/noperm", base);
+        let _ = std::fs::write(&noperm, b"secret");
+        let _ = std::fs::set_permissions(&noperm, std::fs::Permissions::from_mode(0o000));
+        let rootdir = format!("{}/rootdir", base);
+        let _ = std::fs::create_dir_all(&rootdir);
+        let _ = std::fs::set_permissions(&rootdir, std::fs::Permissions::from_mode(0o755));
+    }
     t
 }
 
@@ -301,8 +311,28 @@ fn run_seq(section: &str, src: &str, needs: &[(String, Need)]) -> Vec<Violation>
 
 fn process_case(ctx: &mut Ctx, bytes: &[u8], t: &Targets) -> Vec<Violation> {
     let mut c = Choices::new(bytes);
-    let which = c.below(9);
+    let which = c.below(12);
+    let base = scratch("c22");
     let (src, stdin, stdout, what): (String, Stdin, Option<&str>, &str) = match which {
+        // permission denied: the binary runs as an unprivileged user against root's files
+        9 => (
+            format!("let a = open(\"{b}/noperm\");\nlet b = open(\"{b}/noperm\", \"a\");\nlet c = pcap_open(\"{b}/noperm\");\neprintln(\"R {{}}\", is_error(a) && is_error(b) && is_error(c));\n", b = base),
+            Stdin::Null,
+            None,
+            "eacces-open-unreadable",
+        ),
+        10 => (
+            format!("let a = open(\"{b}/rootdir/new\", \"w\");\nlet b = open(\"{b}/rootdir/new2\", \"x\");\nlet c = open(\"{b}/rootdir/new3\", \"a\");\neprintln(\"R {{}}\", is_error(a) && is_error(b) && is_error(c));\n", b = base),
+            Stdin::Null,
+            None,
+            "eacces-create-in-foreign-directory",
+        ),
+        11 => (
+            format!("let a = pcap_open(\"{b}/rootdir/new.pcap\", \"w\");\nlet b = pcap_open(\"{b}/rootdir/new2.pcap\", \"x\");\neprintln(\"R {{}}\", is_error(a) && is_error(b));\n", b = base),
+            Stdin::Null,
+            None,
+            "eacces-pcap-create",
+        ),
         0 => ("let s = pcap_stream(stdin);\neprintln(\"R {}\", is_error(s));\n".into(), Stdin::Bytes(fill(c.u64(), 24 + c.below(60))), None, "pcap_stream-garbage-stdin"),
         1 => ("let s = pcap_stream(stdin);\neprintln(\"R {}\", is_error(s));\n".into(), Stdin::Bytes(vec![]), None, "pcap_stream-empty-stdin"),
         2 => ("let s = pcap_stream(stdin);\neprintln(\"R {}\", is_error(s));\n".into(), Stdin::Bytes(fill(c.u64(), 1 + c.below(23))), None, "pcap_stream-short-stdin"),
@@ -340,6 +370,9 @@ fn run_process(ctx: &mut Ctx, src: &str, stdin: Stdin, stdout: Option<&str>, wha
     let mut o = Opts::new(vec![script]).stdin(stdin);
     if let Some(p) = stdout {
         o = o.stdout_to(p);
+    }
+    if what.starts_with("eacces") {
+        o = o.as_user(65534);
     }
     let r = e2e::run(o);
     let mut out = Vec::new();
